@@ -398,16 +398,18 @@ def _diverse_model(path, names):
         if isinstance(a, SBool):
             s.add(a.z3())
     vs = [z3.Int(n) for n in names]
-    for v, n in zip(vs, names):
-        s.add(v >= max(2, atom_lower(n)), v <= 9)
-    s.push()
-    s.add(z3.Distinct(*vs)) if len(vs) > 1 else None
-    if s.check() != z3.sat:
+    for ub, distinct in ((4, True), (6, True), (4, False), (9, True), (9, False)):
+        s.push()
+        for v, n in zip(vs, names):
+            s.add(v >= max(2, atom_lower(n)), v <= ub)
+        if distinct and len(vs) > 1 and len(vs) <= ub - 1:
+            s.add(z3.Distinct(*vs))
+        if s.check() == z3.sat:
+            m = s.model()
+            s.pop()
+            return {n: m.eval(v, model_completion=True).as_long() for v, n in zip(vs, names)}
         s.pop()
-        if s.check() != z3.sat:
-            return None
-    m = s.model()
-    return {n: m.eval(v, model_completion=True).as_long() for v, n in zip(vs, names)}
+    return None
 
 
 def _sint_atoms(obj, depth=0):
